@@ -514,7 +514,39 @@ func c12SwapCase(s string) string {
 }
 
 func c12NearMiss(r *rand.Rand, t string) string {
-	switch r.Intn(10) {
+	switch r.Intn(13) {
+	case 10:
+		// same length, same multiset of bytes: two distinct bytes exchanged (defeats comparisons that
+		// accumulate with xor or sum instead of or)
+		b := []byte(t)
+		for tries := 0; tries < 8 && len(b) > 1; tries++ {
+			i, j := r.Intn(len(b)), r.Intn(len(b))
+			if b[i] != b[j] {
+				b[i], b[j] = b[j], b[i]
+				return string(b)
+			}
+		}
+		return t + "y"
+	case 11:
+		// same length, two positions changed by the same bit mask (the differences cancel under xor)
+		b := []byte(t)
+		if len(b) > 1 {
+			i := r.Intn(len(b) - 1)
+			b[i] ^= 2
+			b[i+1] ^= 2
+			return string(b)
+		}
+		return t + "z"
+	case 12:
+		// reversed
+		b := []byte(t)
+		for i, j := 0, len(b)-1; i < j; i, j = i+1, j-1 {
+			b[i], b[j] = b[j], b[i]
+		}
+		if string(b) == t {
+			return t + "r"
+		}
+		return string(b)
 	case 0:
 		if len(t) > 0 {
 			return t[:len(t)-1]
